@@ -33,6 +33,22 @@ fn make_n(bits: u32, mod8is1: Option<bool>) -> Option<Uint> {
     Some(n)
 }
 
+/// the first probable prime = 3 mod 4 at or above 2^(bits-1) + 12345 (no factor base prime divides
+/// it, as for the inputs the drivers accept after `check_divisors`)
+fn make_prime(bits: u32) -> Option<Uint> {
+    if bits < 16 {
+        return None;
+    }
+    let mut n = (Uint::ONE << (bits - 1)) + Uint::from(12347u64);
+    while !yamaquasi::pseudoprime(n) {
+        n += Uint::from(4u64);
+    }
+    if n.bits() != bits || n.digits()[0] % 4 != 3 {
+        return None;
+    }
+    Some(n)
+}
+
 fn table_text(t: &[(f64, u64, u64)]) -> String {
     t.iter()
         .map(|r| format!("{}:{}:{}", r.0 as u64, r.1, r.2))
@@ -98,7 +114,7 @@ fn param(f: &str, a: &[&str]) -> Option<String> {
     Some(r)
 }
 
-pub fn handle(op: &str, a: &[&str]) -> Option<String> {
+fn handle_inner(op: &str, a: &[&str]) -> Option<String> {
     match (op, a) {
         ("param", [f, rest @ ..]) => param(f, rest),
         ("stage2", [t, num, den]) => {
@@ -151,6 +167,51 @@ pub fn handle(op: &str, a: &[&str]) -> Option<String> {
             yamaquasi::arith_fft::convolve_modn(&zn, size, &p1, &p2, &mut res, 0);
             Some("ok".to_string())
         }
+        // consumer run for SIQS: the steps of siqs::siqs up to the first polynomial, every value from
+        // the real parameter functions: FBase::new(fb_size), select_siqs_factors(nfactors, interval),
+        // select_a(a_value_count), maxlarge/maxdouble, SieveSIQS::new, prepare_a, Poly::first, then
+        // the whole interval of that polynomial through siqs_sieve_poly.
+        // answers `fb_len,interval,nfacs,n_a,ok`.
+        ("siqs_consumer", [bits, use_double]) => {
+            use yamaquasi::siqs::{self, verif_hooks as vh};
+            let bits = u32_of(bits)?;
+            let d = bool_of(use_double)?;
+            let n = make_prime(bits)?;
+            let mut prefs = yamaquasi::Preferences::default();
+            prefs.verbosity = yamaquasi::Verbosity::Silent;
+            let fb = vh::vh_fb_size(&n, d);
+            let fbase = FBase::new(Int::cast_from(n), fb);
+            let mm = vh::vh_interval_size(&n, d);
+            let nfacs = vh::vh_nfactors(&n) as usize;
+            let nint = Int::cast_from(n);
+            let factors = siqs::select_siqs_factors(&fbase, &nint, nfacs, mm as usize, prefs.verbosity);
+            let a_ints = siqs::select_a(&factors, vh::vh_a_value_count(&n), prefs.verbosity);
+            let maxprime = fbase.bound() as u64;
+            let maxlarge = std::cmp::min(maxprime * vh::vh_large_prime_factor(&n), (1 << 32) - 1);
+            let maxdouble = if d { maxprime * maxprime * vh::vh_double_large_factor(&n) } else { 0 };
+            let s = siqs::SieveSIQS::new(nint, &fbase, maxlarge, maxdouble, mm as usize, &prefs);
+            let a = siqs::prepare_a(&factors, &a_ints[0], &fbase, -(mm as i64) / 2);
+            let pol = siqs::Poly::first(&s, &a);
+            siqs::verif_hooks_consumer::vh_sieve_poly(&s, &a, &pol);
+            Some(format!("{},{},{},{},ok", fbase.len(), mm, nfacs, a_ints.len()))
+        }
+        // consumer run for MPQS: factor base and interval from the real parameter functions, one
+        // polynomial through the real mpqs_poly (roots + all blocks of the interval).
+        // answers `fb_len,interval,npolys,ok`.
+        ("mpqs_consumer", [bits, use_double]) => {
+            let bits = u32_of(bits)?;
+            let d = bool_of(use_double)?;
+            let n = make_prime(bits)?;
+            let fb = yamaquasi::params::mpqs_fb_size(bits, d);
+            let fbase = FBase::new(Int::cast_from(n), fb);
+            let mm = yamaquasi::mpqs::verif_hooks::vh_mpqs_interval_size(&n);
+            // D near sqrt(sqrt(2n) / (M/2)) as in mpqs::mpqs
+            let a_target = yamaquasi::arith::isqrt(n << 1) / Uint::from(mm as u64 / 2);
+            let d_target = std::cmp::max(Uint::from(3u64), yamaquasi::arith::isqrt(a_target));
+            let dbase = u128::cast_from(d_target);
+            let polys = yamaquasi::mpqs::verif_hooks_block::vh_poly_block(&n, &fbase, mm, dbase, 4000, 1);
+            Some(format!("{},{},{},ok", fbase.len(), mm, polys.len()))
+        }
         // consumer run for classical QS: factor base of the size chosen by the real parameter
         // function, maxlarge from the real qsieve::max_large_prime, then one call of fbase::cofactor
         // (the routine every sieve report goes through) with that maxlarge.
@@ -167,5 +228,36 @@ pub fn handle(op: &str, a: &[&str]) -> Option<String> {
             Some(format!("{},{},{},{}", fb.len(), fb.bound(), maxlarge, if r.is_some() { "some" } else { "none" }))
         }
         _ => None,
+    }
+}
+
+/// Consumer runs report the panic message (`panic:<message>`), the other ops leave the panic to
+/// the line server (`panic`), which is what the model prints.
+pub fn handle(op: &str, a: &[&str]) -> Option<String> {
+    if !op.ends_with("_consumer") {
+        return handle_inner(op, a);
+    }
+    static LOC: std::sync::Mutex<String> = std::sync::Mutex::new(String::new());
+    let prev = std::panic::take_hook();
+    std::panic::set_hook(Box::new(|info| {
+        if let Some(l) = info.location() {
+            *LOC.lock().unwrap_or_else(|e| e.into_inner()) = format!("{}:{}", l.file(), l.line());
+        }
+    }));
+    let r = std::panic::catch_unwind(std::panic::AssertUnwindSafe(|| handle_inner(op, a)));
+    std::panic::set_hook(prev);
+    match r {
+        Ok(r) => r,
+        Err(e) => {
+            let msg = if let Some(s) = e.downcast_ref::<&str>() {
+                s.to_string()
+            } else if let Some(s) = e.downcast_ref::<String>() {
+                s.clone()
+            } else {
+                "?".to_string()
+            };
+            let loc = LOC.lock().unwrap_or_else(|e| e.into_inner()).clone();
+            Some(format!("panic:{}@{}", msg.replace(char::is_whitespace, "_"), loc))
+        }
     }
 }
